@@ -9,7 +9,7 @@ class C05(InterpProp):
     LEVEL_TEXT = ("PARTIAL. Coq theorems about an executable model of the interpreter (coq/model/Interp.v: every generator "
                   "of pinterpreter.py defunctionalised into frames -- visit, thresholds, _visit_children, Program, Blank/"
                   "Comment, Mark, Block with its lock protocol, End block(s) with interrupt abortion, Watch, Alarm with "
-                  "re-arm and subtree reset, Wait, Noop, command lines, invalid instructions, exception capture in visit, "
+                  "re-arm and subtree reset, Wait, Noop, command lines, invalid instructions, Macro definitions and calls with the recursion check, exception capture in visit, "
                   "the sub-tick loop over main generator and interrupt copies): in EVERY state of EVERY run, for all methods "
                   "of these constructs, all environments and any number of ticks, (1) the blocks holding the lock form one "
                   "nested chain and (2) no Watch / Alarm of the interrupt map lies inside a block that has ended (End block "
@@ -17,8 +17,8 @@ class C05(InterpProp):
                   "preserved by each of the ~30 frame transitions, lifted by a transfer theorem. The other clauses (Block tag "
                   "= innermost active block, nothing after a block starts before it ended) are decided by the Coq monitor on "
                   "the real interpreter; the last one is refuted inside re-arming Alarm bodies (known finding).")
-    LEVEL_NOTE = ("Theorems are about coq/model/Interp.v; macros, injection, live edits, cancel/force are not modelled (stage "
-                  "A). Theorem (2) assumes that parent pointers and child lists of the method describe the same tree "
+    LEVEL_NOTE = ("Theorems are about coq/model/Interp.v (with macros; injection, cancel / force and live edits are the subject "
+                  "of C14, C12 and C01). Theorem (2) assumes that parent pointers and child lists of the method describe the same tree "
                   "(tree_ok_b, evaluated by the monitor on every generated method). Tie: generated methods are parsed by the "
                   "real parser and run on the real PInterpreter (interp.tick called directly on an engine that provides the "
                   "interpreter context) under a scripted environment -- per tick: which nodes still await their threshold, "
@@ -33,7 +33,9 @@ class C05(InterpProp):
             "released at random ticks, per-condition truth probabilities 0-1, 1% condition errors, commands completed with "
             "probability 0.3 per tick; Watches / Alarms nest up to 3 deep; 12% of the methods have the directed shape 'block "
             "whose body nests Watches / Alarms in Watches / Alarms, ended from inside one of them, from its own body or from a "
-            "Watch outside, followed by lines after the block'; non-trivial = a block took the lock and a block ended; "
+            "Watch outside, followed by lines after the block'; 15% have the directed macro shape (1-3 definitions with blocks, "
+            "watches and calls in their bodies, redefinitions, calls at top level, in blocks and in watch bodies, undefined and "
+            "recursive calls); non-trivial = a block took the lock and a block ended; "
             "distinct by canonical JSON")
 
     def nontrivial(self, case, obs):
